@@ -24,7 +24,9 @@ func init() {
 			"whole Code evaluated 3x (plain / compiled); redefine one definition, re-evaluate the same and a fresh main, restore (plain / compiled); main evaluated before any and after " +
 			"every definition (plain / compiled; not for programs with mutable state or macros)}; value and (tr ..) trace of every evaluation of main are compared with an independent late-binding reference evaluator; " +
 			"a case is non-trivial when a call site or function designator was defined or compiled before its target existed, or when the mode evaluates a Code object more than once, " +
-			"compiles it, or redefines a function",
+			"compiles it, or redefines a function; family reeval (model-free, differential): every special operator of the interpreter in a pure expression of x that is evaluated " +
+			"three times with x = 1,2,1 and 2,1,2 through one function, compiled function, lambda, Code object (plain / compiled), loop body and nested call - the n-th result must equal " +
+			"what a fresh copy of the same code gives when evaluated once with that x",
 		Assumptions: []string{
 			"the reference evaluator (props/c08/ref.go, a 600-line late-binding Lisp subset) is the oracle; its own sensitivity is shown by the mutated references",
 			"Code.Compile evaluating top-level defun/defvar/defmacro before the other top-level forms is documented (docs/features.md, Read and Eval) and modelled, not reported",
@@ -38,7 +40,7 @@ func init() {
 		Exec:      exec,
 		Required: []string{"fwd-plain-args", "fwd-plain-noargs", "fwd-special-args", "fwd-special-noargs", "fwd-ref", "fwd-var", "compiled", "re-evaluated",
 			"redefinition-seen-by-old-caller", "early-failure-then-value", "mutual-recursion", "self-recursion", "self-recursion-guard-clause", "macro-use",
-			"macro-expands-to-later-function", "defvar-read", "global-state", "closure", "closure-state", "code-as-data", "function-designator", "two-callers", "re-evaluated-under-new-bindings"},
+			"macro-expands-to-later-function", "defvar-read", "global-state", "closure", "closure-state", "code-as-data", "function-designator", "two-callers", "re-evaluated-under-new-bindings", "reeval-cases"},
 		Bound:    bound,
 		Selftest: selftest,
 	})
@@ -65,7 +67,7 @@ func bound(tier string) string {
 			"required/&optional parameters, plus chain3 with every ordered pair of distinct contexts on its two edges"
 	}
 	return fmt.Sprintf("%d programs (%s): %s; macro / defvar / closure / code-as-data programs; every admissible order of the definitions; %d modes + one redefinition mode pair per "+
-		"redefinable definition; %d cases, all executed", progs, strings.Join(fs, " "), shapes, len(baseModes)+2, cases)
+		"redefinable definition; family reeval: "+reevalOps()+" x 7 ways of holding the code x 2 value orders; %d cases, all executed", progs, strings.Join(fs, " "), shapes, len(baseModes)+2, cases)
 }
 
 var caseCounter int64
@@ -190,6 +192,9 @@ func exec(spec string) (res engine.Result) {
 		out = append(out, "fwd="+fwdLabel(r.edges))
 		res.Outcome = strings.Join(out, "\n")
 		return
+	}
+	if strings.HasPrefix(spec, "reeval|") {
+		return execReeval(spec)
 	}
 	p, perm, mode, err := parseSpec(spec)
 	if err != nil {
